@@ -126,6 +126,28 @@ Proof.
   match type of Ec with context [?x <? ?y] => destruct (x <? y) eqn:Q3 end; [discriminate|]. lia.
 Qed.
 
+(* "the signature verifies under the issuing key": a verifier reads the signed portion and the SignatureValue off the
+   certificate; for any verification function that accepts what the signer produces for a message, it accepts *)
+Theorem new_cert_verifies (verify : bytes -> bytes -> bool) a m kn s :
+  (forall msg, verify msg (sign msg) = true) ->
+  new_cert sign a = Ok m -> legal a kn -> c_signer a = Some s -> N.of_nat (length (m_wire m)) < two64 ->
+  exists body vs msg sigv,
+    m_wire m = tlv TYPE_DATA body /\ strict_cert (m_wire m) = Ok vs /\
+    signed_portion_data body = Some msg /\ signature_of vs = VBytes sigv /\ verify msg sigv = true.
+Proof.
+  intros Hv H L Es Hl. destruct (new_cert_parts sign a m H) as (p & Hp).
+  destruct (parts_instants a m p kn Hp L) as (n & _ & _ & Hname & _).
+  pose proof Hp as (_ & _ & _ & _ & _ & _ & _ & _ & _ & _ & _ & Hw & _ & Hsv).
+  rewrite Es in Hsv.
+  assert (Hn' : Forall wf_comp64 (p_name p)).
+  { rewrite Hname. apply Forall_app. split; [exact (l_comps a kn L)|].
+    constructor; [exact (l_issuer a kn L)|]. constructor; [apply version_wf|constructor]. }
+  eexists. eexists. exists (m_sig_covered m), (sign (m_sig_covered m)).
+  split; [exact Hw|]. split; [exact (new_cert_strict sign a m p Hp Hl Hn' (l_info a kn L))|].
+  split; [exact (new_cert_signed_portion sign a m p s Hp Es Hl (l_info a kn L))|].
+  split; [rewrite Hsv; reflexivity|apply Hv].
+Qed.
+
 (* ---- the three callers are new_cert on particular arguments ------------------------------------------------------- *)
 Theorem derive_cert_spec key_name iss pub sg ts start e m :
   derive_cert sign key_name iss pub sg ts start e = Ok m ->
